@@ -25,6 +25,8 @@ REPLAY = ("TraceValidate", TRACE_CFG)
 
 def signature(events, at):
     ev = json.loads(events[at - 1]) if 0 < at <= len(events) else {}
+    if ev.get("op") == "climit":
+        return "C14|command-line-limit|form=%s|n=%s" % (ev.get("form"), "neg" if ev["n"] < 0 else "0" if ev["n"] == 0 else "1..100" if ev["n"] <= 100 else ">100")
     if ev.get("op") == "limit":
         return "C14|limit|n=%s" % ("neg" if ev["n"] < 0 else "0" if ev["n"] == 0 else "1..100" if ev["n"] <= 100 else ">100")
     inv = 11 in ev.get("in", [])
@@ -45,6 +47,7 @@ def run(ctx):
                  env={"DUMPFILE": dump})
     if r2["error"] or r2["violated"]:
         raise Infra("dump failed: %s %s" % (r2["error"], r2["violated"]))
+    ctx.wtf()
     tr = os.path.join(ctx.work, "validate.ndjson")
     i = ctx.run_vh(["validate-run", "-in", dump, "-out", tr, "-reps", 2 if q else 4, "-random", 3000 if q else 30000,
                     "-boundary", 45 if q else 300])
